@@ -1,6 +1,8 @@
 (* Props/C02.v — property C02 on the mirror of conditions.rs: statements only. *)
 From ChiaV.Base Require Import Bytes.
 From ChiaV.Clvm Require Import Sexp Ints.
+From ChiaV.Clvm Require Import IntsProofs LadderProofs.
+From ChiaV.Gen Require Import Ladders.
 From ChiaV.Cond Require Import Model Invariants.
 Open Scope N_scope.
 
@@ -19,3 +21,9 @@ Theorem C02_accepted_conserves : forall vk H K fl V t max_cost clvm_cost b spend
             sp_coin_id s = H (sp_parent s ++ sp_ph s ++ canon_n (sp_amount s)) /\
             length (sp_parent s) = 32%nat /\ length (sp_ph s) = 32%nat /\ sp_amount s < 2 ^ 64) spends.
 Proof. exact accepted_conserves. Qed.
+
+(* the coin-id function of chia-protocol (Coin::coin_id; its amount ladder is translated from coin.rs on
+   every run) hashes the same canonical amount: for every u64 the bytes it feeds to SHA-256 after parent
+   and puzzle hash are the minimal big-endian form, so Coin::coin_id = H(parent ++ puzzle_hash ++ canonical amount) *)
+Theorem C02_coin_id_function_hashes_canonical_amount : forall v, v < 2 ^ 64 -> coin_amount_bytes v = canon_n v.
+Proof. exact coin_amount_bytes_canon. Qed.
